@@ -27,7 +27,9 @@ CHECKS = {
           "chord-tone/bass-tone pitch by degree + 12*octave and leaves absolute and drum notes alone; chord octave and note octave move by 12k; "
           "(c % a) % b = c % (a + b) field-wise; tonality addition associative, normalised, neutral elements, undone by subtraction; __eq__ is "
           "the kernel of normalisation. Rendering-level and structural clauses (Score % t, Score.o, melodies kept by Chord.__call__, timing unchanged) "
-          "are evaluated on the implementation by the python oracle and, for rendering, by C03's model.",
+          "are evaluated on the implementation by the python oracle; at rendering level: modulating a score moves the sounding notes of "
+          "chord-relative parts by the interval and leaves absolute/drum parts and all timing unchanged (theorem over C03's model; parts "
+          "with relative notes by oracle).",
   "note": "Trusted: Coq kernel; gen_tables.py; adapters. Chords built without a tonality are outside the quantifier. Structural clauses on "
           "Score/Melody are tied by oracle only (they are maps over the proven per-chord/per-note operations).",
  },
@@ -59,5 +61,17 @@ CHECKS = {
           "set/dict interchangeability and NoteIn/ChordIn/TonalityIn masks. Three hash defects were repaired in /repo.",
   "note": "Trusted: Coq kernel; Python hashes equal tuples/strings/frozensets equally; adapters. Score is unhashable (no hash clause). "
           "Float dynamics thresholds are modelled in exact rationals and verified exhaustively over amplitudes 0..127 and the 9 constants.",
+ },
+ "C03": {
+  "text": "Theorems in integer ticks, for every score (any number of chords, unequal parts, absent parts, rests/continuations anywhere, "
+          "relative notes, drums): the nested clock/reference folds of the renderer are one pass over the part's timeline; onsets have the "
+          "closed forms (chord start = sum of earlier chord durations, note start = sum of earlier notes); merging the rendered rows of a part "
+          "(continuations lengthen the previous event, silent events dropped) yields exactly the Spec's sounding notes - pitch from C01/C09's "
+          "functions with the reference reset by an absent part and defaulting to 0, duration extended by directly following continuations also "
+          "across chord boundaries, velocity = amplitude; rests, orphan continuations and absent parts are silent. to_events (seconds, global "
+          "stable sort, per-track dictionaries) is modelled exactly and tied by correspondence; its defect (continuation added in quarters) was fixed.",
+  "note": "Trusted: Coq kernel; adapters (tick scaling by the LCM of denominators, float seconds recovered as exact rationals); Python's stable "
+          "sort. The seconds-level statement about matrix_to_events (per-track dictionaries + global sort) is NOT yet a theorem: it is tied by "
+          "model correspondence (2700 cases/run) and by the oracle. Tag-free notes, integer amplitudes, no 'x' placeholders.",
  },
 }
